@@ -50,8 +50,8 @@ Lemma persisted_app : forall c s tr x,
 Proof. intros; unfold persisted; apply fold_left_app. Qed.
 Lemma accounted_app : forall s e tr x, accounted s e tr -> accounted s e (tr ++ x).
 Proof.
-  intros s e tr x [H|(f & t & H & Hr)]; [left; apply in_or_app; auto|].
-  right. exists f, t. split; auto. apply in_or_app; auto.
+  intros s e tr x [H|[H|(f & t & H & Hr)]]; [left; apply in_or_app; auto|right; left; apply in_or_app; auto|].
+  right. right. exists f, t. split; auto. apply in_or_app; auto.
 Qed.
 
 Definition all_safe (c : config) (log : list entry) (tr : list tev) : Prop :=
@@ -108,7 +108,7 @@ Qed.
 
 (* ---------- well-formed logs and the invariant ---------- *)
 Definition wf_entry (e : entry) : Prop :=
-  0 <= eseq e -> 1 <= ecnt e /\ (eseq e = 1 -> ecnt e = 1) /\ epos e <> 0.
+  0 <= eseq e -> 1 <= ecnt e /\ (eseq e = 1 -> ecnt e = 1) /\ epos e <> 0 /\ 0 <= eid e.
 (* distinct entries of one sequence occupy disjoint position ranges (pos - cnt, pos] *)
 Definition wf_log (log : list entry) : Prop :=
   (forall e, In e log -> wf_entry e) /\
@@ -116,7 +116,7 @@ Definition wf_log (log : list entry) : Prop :=
                  e1 = e2 \/ epos e1 <= epos e2 - ecnt e2 \/ epos e2 <= epos e1 - ecnt e1).
 
 Definition from_log (log : list entry) (s : Z) (u : upd) : Prop :=
-  exists e, In e log /\ eseq e = s /\ u = upd_of e.
+  exists e, In e log /\ eseq e = s /\ (u = upd_of e \/ u = mark_of e).
 
 Record Inv (c : config) (log : list entry) (m : mgr) : Prop := {
   inv_pend : forall s, 0 <= s -> Forall (from_log log s) (bpending (mbox m s));
@@ -127,12 +127,12 @@ Record Inv (c : config) (log : list entry) (m : mgr) : Prop := {
 
 Lemma from_log_nz : forall log s u, wf_log log -> 0 <= s -> from_log log s u -> nz u.
 Proof.
-  intros log s u [Hw _] Hs (e & Hin & Hes & ->). unfold nz; simpl.
-  destruct (Hw e Hin) as (_ & _ & H); [lia|exact H].
+  intros log s u [Hw _] Hs (e & Hin & Hes & [->| ->]); unfold nz; simpl;
+    (destruct (Hw e Hin) as (_ & _ & H & _); [lia|exact H]).
 Qed.
 Lemma upd_of_cnt : forall log e, wf_log log -> In e log -> 0 <= eseq e -> ucnt (upd_of e) = ecnt e /\ 1 <= ecnt e.
 Proof.
-  intros log e [Hw _] Hin Hs. destruct (Hw e Hin Hs) as (H1 & H2 & _). simpl.
+  intros log e [Hw _] Hin Hs. destruct (Hw e Hin Hs) as (H1 & H2 & _ & _). simpl.
   destruct (Z.eqb_spec (eseq e) 1) as [E|E]; split; auto. rewrite (H2 E); reflexivity.
 Qed.
 
@@ -140,19 +140,21 @@ Qed.
 Lemma chain_covers_log : forall log s us st st' e,
   wf_log log -> 0 <= s -> Forall (from_log log s) us -> chain st us st' ->
   In e log -> eseq e = s -> st < epos e <= st' ->
-  exists u, In u us /\ uid u = eid e.
+  exists u, In u us /\ (u = upd_of e \/ u = mark_of e).
 Proof.
   intros log s us st st' e Hwf Hs Hf Hc Hin Hes Hr.
   pose proof (chain_cov_all us st st' (epos e) Hc Hr) as Hcov.
   unfold cov in Hcov. rewrite Exists_exists in Hcov. destruct Hcov as (x & Hx & Hcv).
   rewrite in_map_iff in Hx. destruct Hx as (u & <- & Hu). simpl in Hcv.
   exists u. split; auto.
-  rewrite Forall_forall in Hf. destruct (Hf u Hu) as (e' & Hin' & Hes' & ->).
+  rewrite Forall_forall in Hf. destruct (Hf u Hu) as (e' & Hin' & Hes' & Hu').
   destruct (upd_of_cnt log e' Hwf Hin' ltac:(lia)) as [Hc1 Hc2].
   destruct (upd_of_cnt log e Hwf Hin ltac:(lia)) as [_ Hc3].
-  unfold ustart, uend in Hcv. rewrite Hc1 in Hcv. simpl in Hcv.
-  destruct Hwf as [_ Hd].
-  destruct (Hd e' e Hin' Hin ltac:(lia) ltac:(lia)) as [->|[H|H]]; auto; lia.
+  assert (Hrng : epos e' - ecnt e' < epos e <= epos e').
+  { destruct Hu' as [->| ->]; unfold ustart, uend in Hcv; simpl in *; rewrite Hc1 in Hcv; lia. }
+  assert (e' = e).
+  { destruct Hwf as [_ Hd]. destruct (Hd e' e Hin' Hin ltac:(lia) ltac:(lia)) as [E|[H|H]]; auto; lia. }
+  subst e'. exact Hu'.
 Qed.
 
 Lemma mgr_init_inv : forall c log, Inv c log (mgr_init c).
@@ -179,21 +181,20 @@ Proof.
 Qed.
 
 (* ---------- a box apply segment ---------- *)
+Definition dl (s : Z) (u : upd) : tev := if uid u <? 0 then Skip s (- uid u - 1) else Deliver s (uid u).
 Lemma delivers_nonpersist : forall s (us : list upd),
-  forallb (fun ev => negb (is_persist ev)) (map (fun u => Deliver s (uid u)) us) = true.
-Proof. induction us; simpl; auto. Qed.
+  forallb (fun ev => negb (is_persist ev)) (map (dl s) us) = true.
+Proof. induction us; simpl; auto. unfold dl at 1. destruct (uid a <? 0); simpl; auto. Qed.
 
-Lemma box_item_inv : forall c log m e,
-  wf_log log -> In e log -> 0 <= eseq e -> Inv c log m -> Inv c log (box_item m (eseq e) e).
+Lemma box_upd_inv : forall c log m s u,
+  wf_log log -> 0 <= s -> from_log log s u -> Inv c log m -> Inv c log (box_upd m s u).
 Proof.
-  intros c log m e Hwf Hin Hr0 HI. unfold box_item.
-  set (s := eseq e) in *.
-  assert (Hfl : from_log log s (upd_of e)) by (exists e; auto).
+  intros c log m s u Hwf Hr0 Hfl HI. unfold box_upd.
   assert (Hpn : pend_nz (mbox m s)).
   { unfold pend_nz. eapply Forall_impl; [|apply (inv_pend _ _ _ HI s Hr0)].
-    intros u Hu. eapply from_log_nz; eauto. }
-  pose proof (handle_spec (mbox m s) (upd_of e) Hpn (from_log_nz _ _ _ Hwf Hr0 Hfl)) as HS.
-  destruct (handle (mbox m s) (upd_of e)) as [b' evs]. destruct HS as [Hok Hpend].
+    intros u0 Hu. eapply from_log_nz; eauto. }
+  pose proof (handle_spec (mbox m s) u Hpn (from_log_nz _ _ _ Hwf Hr0 Hfl)) as HS.
+  destruct (handle (mbox m s) u) as [b' evs]. destruct HS as [Hok Hpend].
   assert (Hp' : Forall (from_log log s) (bpending b')).
   { apply Hpend; auto. apply (inv_pend _ _ _ HI s Hr0). }
   destruct Hok as [[-> Hst]|(s' & us & -> & Hne & Hch & Hst & _ & Hall)].
@@ -205,18 +206,23 @@ Proof.
       * rewrite Hst in H4. apply (inv_cov _ _ _ HI); auto.
       * apply (inv_cov _ _ _ HI); auto.
     + apply (inv_safe _ _ _ HI).
-  - (* a chain is dispatched, then the new position is stored *)
+  - (* a chain is dispatched (markers skipped), then the new position is stored *)
     assert (Hus : Forall (from_log log s) us).
     { apply Hall; [apply (inv_pend _ _ _ HI s Hr0)|exact Hfl]. }
     assert (Hacc : forall e1, In e1 log -> eseq e1 = s -> base c s < epos e1 <= s' ->
-                   accounted s e1 (mtr m ++ map (fun u => Deliver s (uid u)) us)).
+                   accounted s e1 (mtr m ++ map (dl s) us)).
     { intros e1 H1 H2 H4. destruct (Z_le_gt_dec (epos e1) (bstate (mbox m s))).
       - apply accounted_app. apply (inv_cov _ _ _ HI); auto. lia.
-      - destruct (chain_covers_log log s us _ _ e1 Hwf Hr0 Hus Hch H1 H2 ltac:(lia)) as (u & Hu & Hid).
-        left. apply in_or_app. right. rewrite in_map_iff. exists u. rewrite Hid. auto. }
-    assert (Hsafe1 : all_safe c log (mtr m ++ map (fun u => Deliver s (uid u)) us)).
+      - destruct (chain_covers_log log s us _ _ e1 Hwf Hr0 Hus Hch H1 H2 ltac:(lia)) as (u0 & Hu & Hid).
+        destruct Hwf as [Hw _]. destruct (Hw e1 H1 ltac:(lia)) as (_ & _ & _ & Hid0).
+        destruct Hid as [->| ->].
+        + left. apply in_or_app. right. rewrite in_map_iff. exists (upd_of e1). split; auto.
+          unfold dl. simpl. destruct (Z.ltb_spec (eid e1) 0); [lia|reflexivity].
+        + right. left. apply in_or_app. right. rewrite in_map_iff. exists (mark_of e1). split; auto.
+          unfold dl. simpl. destruct (Z.ltb_spec (- eid e1 - 1) 0); [f_equal; lia|lia]. }
+    assert (Hsafe1 : all_safe c log (mtr m ++ map (dl s) us)).
     { apply all_safe_nonpersist; [apply delivers_nonpersist|apply (inv_safe _ _ _ HI)]. }
-    simpl evs_trace. rewrite app_nil_r.
+    simpl evs_trace. rewrite app_nil_r. fold (dl s).
     constructor; simpl.
     + intros s1 Hs1. destruct (Z.eqb_spec s1 s) as [->|]; auto. apply (inv_pend _ _ _ HI); auto.
     + intros s1 e1 H1 H2 H3 H4. destruct (Z.eqb_spec s1 s) as [->|].
@@ -226,6 +232,9 @@ Proof.
       * rewrite app_nil_r. exact Hsafe1.
       * rewrite app_assoc. apply all_safe_persist; auto.
 Qed.
+Lemma box_item_inv : forall c log m e,
+  wf_log log -> In e log -> 0 <= eseq e -> Inv c log m -> Inv c log (box_item m (eseq e) e).
+Proof. intros. unfold box_item. apply box_upd_inv; auto. exists e. auto. Qed.
 
 Lemma emit_nonpersist_inv : forall c log m x,
   forallb (fun ev => negb (is_persist ev)) x = true -> Inv c log m -> Inv c log (emit m x).
@@ -304,7 +313,7 @@ Proof.
                            accounted s e (mtr (emit m [TooLong s (bstate (mbox m s)) v]))).
   { intros e A B C D. rewrite mtr_emit. destruct (Z_le_gt_dec (epos e) (bstate (mbox m s))).
     - apply accounted_app. apply (inv_cov _ _ _ HI); auto. lia.
-    - right. exists (bstate (mbox m s)), v. split; [apply in_or_app; right; simpl; auto|lia]. }
+    - right. right. exists (bstate (mbox m s)), v. split; [apply in_or_app; right; simpl; auto|lia]. }
   assert (H2 : Inv c log (emit (emit m [TooLong s (bstate (mbox m s)) v]) [Persist s v])) by (apply emit_persist_inv; auto).
   rewrite emit_emit in H2. simpl in H2.
   apply set_state_inv; auto. intros e A B C D. rewrite mtr_emit.
@@ -474,6 +483,16 @@ Proof.
   apply IHl. apply push_inv; auto.
 Qed.
 
+Lemma affected_inv : forall c log m e, wf_log log -> In e log -> Inv c log m -> Inv c log (affected c m e).
+Proof.
+  intros c log m e Hwf Hin HI. unfold affected.
+  destruct ((eseq e =? 0) || ((2 <=? eseq e) && (eseq e <? nseq c) && mtracked m (eseq e))) eqn:E; auto.
+  assert (0 <= eseq e).
+  { apply orb_true_iff in E. destruct E as [E|E]; [apply Z.eqb_eq in E; lia|].
+    rewrite !andb_true_iff, Z.leb_le in E. lia. }
+  apply box_upd_inv; auto. exists e. auto.
+Qed.
+
 Lemma mstep_inv : forall c log m o, wf_log log -> Inv c log m -> Inv c log (mstep c log m o).
 Proof.
   intros c log m o Hwf HI. destruct o; cbn [mstep].
@@ -491,6 +510,9 @@ Proof.
     apply IHl. apply chan_diff_inv; auto.
   - repeat apply clear_gaps_inv. exact HI.
   - destruct (_ && _); auto. apply clear_gaps_inv; auto.
+  - assert (Hl : forall e, In e (find_entry log id) -> In e log) by (intros; eapply find_entry_in; eauto).
+    revert m HI. induction (find_entry log id) as [|e t IHl]; intros m HI; simpl; auto.
+    apply IHl; [intros; apply Hl; simpl; auto|]. apply affected_inv; auto. apply Hl; simpl; auto.
 Qed.
 
 Lemma mrun_from_inv : forall c log ops m, wf_log log -> Inv c log m -> Inv c log (fold_left (mstep c log) ops m).
@@ -678,7 +700,7 @@ Qed.
 (* ---------- manager-level at most once (C01 at the handler) ---------- *)
 Definition op_vis (o : mop) : Z -> Z :=
   match o with MPushC v _ _ _ _ | MTooLong v | MChanTooLong v _ | MTimerCommon v | MTimerChan v _ | MStartup v
-                | MFailCommon v | MFailChan v _ => v end.
+                | MFailCommon v | MFailChan v _ | MAffected v _ => v end.
 (* a container that triggers a recovery (updatePtsChanged) does so with positions not beyond the horizon *)
 Definition mid_ok (c : config) (log : list entry) (m : mgr) (o : mop) : Prop :=
   match o with
@@ -781,26 +803,36 @@ Proof.
   destruct ev; try discriminate; simpl; auto.
 Qed.
 
-(* chains of log entries have pairwise distinct ids *)
+(* chains of log entries / markers: the dispatched ones have pairwise distinct ids *)
+Definition dpairs (s : Z) (us : list upd) : list (Z * Z) :=
+  flat_map (fun u => if uid u <? 0 then [] else [(s, uid u)]) us.
 Lemma chain_ids : forall log s us st st',
   wf_log log -> NoDup (map eid log) -> 0 <= s -> Forall (from_log log s) us -> chain st us st' ->
-  NoDup (map uid us) /\ st <= st' /\
-  forall u, In u us -> exists e, In e log /\ eid e = uid u /\ eseq e = s /\ st < epos e <= st'.
+  NoDup (dpairs s us) /\ st <= st' /\
+  forall id, In (s, id) (dpairs s us) -> exists e, In e log /\ eid e = id /\ eseq e = s /\ st < epos e <= st'.
 Proof.
   intros log s us. induction us as [|u t IH]; intros st st' Hwf Hu Hs Hf Hc; simpl in *.
-  - subst. split; [constructor|]. split; [lia|]. intros u [].
+  - subst. split; [constructor|]. split; [lia|]. intros id [].
   - inversion Hf as [|? ? Hfu Hft]; subst. destruct Hc as [Ha Hb].
     destruct (IH _ _ Hwf Hu Hs Hft Hb) as (N & M & B).
-    destruct Hfu as (e & He1 & He2 & ->).
+    destruct Hfu as (e & He1 & He2 & Hue).
     destruct (upd_of_cnt log e Hwf He1 ltac:(lia)) as [C1 C2].
-    unfold ustart, uend in *. rewrite C1 in *. simpl in *.
+    assert (Hw : 0 <= eid e) by (destruct Hwf as [Hw _]; destruct (Hw e He1 ltac:(lia)) as (_ & _ & _ & H); exact H).
+    assert (Hpos : ustart u = epos e - ecnt e /\ uend u = epos e).
+    { destruct Hue as [->| ->]; unfold ustart, uend; simpl in *; rewrite C1; auto. }
+    destruct Hpos as [Hp1 Hp2]. rewrite Hp1 in Ha. rewrite Hp2 in *.
     split; [|split; [lia|]].
-    + constructor; auto. rewrite in_map_iff. intros (v & Ev & Hv).
-      destruct (B v Hv) as (e' & D1 & D2 & D3 & D4).
-      assert (e' = e) by (eapply eid_inj; eauto; congruence). subst. lia.
-    + intros v [<-|Hv].
-      * exists e. simpl. repeat split; auto; lia.
-      * destruct (B v Hv) as (e' & D1 & D2 & D3 & D4). exists e'. repeat split; auto; lia.
+    + destruct Hue as [->| ->]; simpl.
+      * destruct (Z.ltb_spec (eid e) 0); [lia|]. simpl. constructor; auto. intros Hin.
+        destruct (B _ Hin) as (e' & D1 & D2 & D3 & D4).
+        assert (e' = e) by (eapply eid_inj; eauto). subst. lia.
+      * destruct (Z.ltb_spec (- eid e - 1) 0); [|lia]. simpl. exact N.
+    + intros id Hin. apply in_app_or in Hin. destruct Hin as [Hin|Hin].
+      * destruct Hue as [->| ->]; simpl in Hin.
+        -- destruct (Z.ltb_spec (eid e) 0); simpl in Hin; [destruct Hin|]. destruct Hin as [E|[]]. inversion E; subst.
+           exists e. repeat split; auto; lia.
+        -- destruct (Z.ltb_spec (- eid e - 1) 0); simpl in Hin; [destruct Hin|lia].
+      * destruct (B _ Hin) as (e' & D1 & D2 & D3 & D4). exists e'. repeat split; auto; lia.
 Qed.
 
 Lemma filter_perm : forall A (f : A -> bool) l, Permutation (filter (fun e => negb (f e)) l ++ filter f l) l.
@@ -999,18 +1031,16 @@ Proof.
         destruct sliced; auto. apply IH; auto. bst. rewrite Z.eqb_refl. lia.
 Qed.
 
-Lemma box_item_inv2 : forall c log m e,
-  wf_log log -> NoDup (map eid log) -> In e log -> 0 <= eseq e -> Inv c log m -> Inv2 log m ->
-  Inv2 log (box_item m (eseq e) e).
+Lemma box_upd_inv2 : forall c log m s u,
+  wf_log log -> NoDup (map eid log) -> 0 <= s -> from_log log s u -> Inv c log m -> Inv2 log m ->
+  Inv2 log (box_upd m s u).
 Proof.
-  intros c log m e Hwf Hu Hin Hr0 HI H2. unfold box_item.
-  set (s := eseq e) in *.
-  assert (Hfl : from_log log s (upd_of e)) by (exists e; auto).
+  intros c log m s u Hwf Hu Hr0 Hfl HI H2. unfold box_upd.
   assert (Hpn : pend_nz (mbox m s)).
   { unfold pend_nz. eapply Forall_impl; [|apply (inv_pend _ _ _ HI s Hr0)].
-    intros u Hu0. eapply from_log_nz; eauto. }
-  pose proof (handle_spec (mbox m s) (upd_of e) Hpn (from_log_nz _ _ _ Hwf Hr0 Hfl)) as HS.
-  destruct (handle (mbox m s) (upd_of e)) as [b' evs]. destruct HS as [Hok _].
+    intros u0 Hu0. eapply from_log_nz; eauto. }
+  pose proof (handle_spec (mbox m s) u Hpn (from_log_nz _ _ _ Hwf Hr0 Hfl)) as HS.
+  destruct (handle (mbox m s) u) as [b' evs]. destruct HS as [Hok _].
   destruct Hok as [[-> Hst]|(s' & us & -> & Hne & Hch & Hst & _ & Hall)].
   - destruct Hst as [Hst|(z & Hz & _)]; [|discriminate].
     apply (inv2_step log m _ []); auto.
@@ -1020,21 +1050,27 @@ Proof.
   - assert (Hus : Forall (from_log log s) us).
     { apply Hall; [apply (inv_pend _ _ _ HI s Hr0)|exact Hfl]. }
     destruct (chain_ids log s us _ _ Hwf Hu Hr0 Hus Hch) as (N & M & B).
-    assert (Esd : seq_delivers (evs_trace s [Dlv s' us]) = map (fun u => (s, uid u)) us).
+    assert (Esd : seq_delivers (evs_trace s [Dlv s' us]) = dpairs s us).
     { simpl. rewrite app_nil_r, seq_delivers_app.
       replace (seq_delivers (if (s =? 1) && (s' =? 0) then [] else [Persist s s'])) with (@nil (Z * Z))
         by (destruct ((s =? 1) && (s' =? 0)); reflexivity).
-      rewrite app_nil_r. clear - Hr0. induction us; simpl; auto.
+      rewrite app_nil_r. clear - Hr0. unfold dpairs. induction us as [|a t IHus]; simpl; auto.
+      destruct (uid a <? 0); simpl; [exact IHus|].
       destruct (Z.leb_spec 0 s); [|lia]. simpl. f_equal. exact IHus. }
     apply (inv2_step log m _ (evs_trace s [Dlv s' us])); auto.
     + intros s1 Hs1. simpl. destruct (Z.eqb_spec s1 s) as [->|]; lia.
-    + rewrite Esd. clear - N. induction us; simpl in *; [constructor|].
-      inversion N; subst. constructor; auto. rewrite in_map_iff. intros (v & Ev & Hv).
-      inversion Ev. apply H1. rewrite in_map_iff. eauto.
-    + intros s1 id Hi. rewrite Esd in Hi. rewrite in_map_iff in Hi. destruct Hi as (u & Eu & Hu1).
-      inversion Eu; subst. destruct (B u Hu1) as (e' & D1 & D2 & D3 & D4).
+    + rewrite Esd. exact N.
+    + intros s1 id Hi. rewrite Esd in Hi.
+      assert (s1 = s).
+      { unfold dpairs in Hi. rewrite in_flat_map in Hi. destruct Hi as (x & _ & Hx).
+        destruct (uid x <? 0); simpl in Hx; [destruct Hx|]. destruct Hx as [E|[]]. inversion E; auto. }
+      subst s1. destruct (B id Hi) as (e' & D1 & D2 & D3 & D4).
       exists e'. simpl. rewrite Z.eqb_refl. repeat split; auto; lia.
 Qed.
+Lemma box_item_inv2 : forall c log m e,
+  wf_log log -> NoDup (map eid log) -> In e log -> 0 <= eseq e -> Inv c log m -> Inv2 log m ->
+  Inv2 log (box_item m (eseq e) e).
+Proof. intros. unfold box_item. eapply box_upd_inv2; eauto. exists e. auto. Qed.
 
 
 Lemma mbox_set_state_other : forall m s v s1, s1 <> s -> mbox (set_state m s v) s1 = mbox m s1.
@@ -1087,9 +1123,9 @@ Proof.
   destruct (cutf _ _ _ _ _) as [[cut cutq] sliced]. destruct sliced; [rewrite IH|]; reflexivity.
 Qed.
 Lemma mtracked_box_item : forall m s e, mtracked (box_item m s e) = mtracked m.
-Proof. intros. unfold box_item. destruct (handle _ _). reflexivity. Qed.
+Proof. intros. unfold box_item, box_upd. destruct (handle _ _). reflexivity. Qed.
 Lemma mbox_box_item_other : forall m s e s1, s1 <> s -> mbox (box_item m s e) s1 = mbox m s1.
-Proof. intros. unfold box_item. destruct (handle _ _). rewrite mbox_emit. apply set_box_other; auto. Qed.
+Proof. intros. unfold box_item, box_upd. destruct (handle _ _). rewrite mbox_emit. apply set_box_other; auto. Qed.
 
 (* channels without a worker still sit at their base, which is not beyond the horizon *)
 Definition Hun (c : config) (vis : Z -> Z) (m : mgr) : Prop :=
@@ -1239,6 +1275,14 @@ Proof.
     + simpl. rewrite app_nil_r. reflexivity.
     + simpl. constructor.
     + intros s1 id [].
+  - unfold find_entry. destruct (find (fun e => eid e =? id) log) as [e|] eqn:F; simpl; [|exact H2].
+    assert (He : In e log) by (apply find_some in F; tauto).
+    unfold affected.
+    destruct ((eseq e =? 0) || ((2 <=? eseq e) && (eseq e <? nseq c) && mtracked m (eseq e))) eqn:E; auto.
+    assert (0 <= eseq e).
+    { apply orb_true_iff in E. destruct E as [E|E]; [apply Z.eqb_eq in E; lia|].
+      rewrite !andb_true_iff, Z.leb_le in E. lia. }
+    eapply box_upd_inv2; eauto. exists e. auto.
 Qed.
 
 Lemma mrun_from_inv2 : forall c log ops m,
@@ -1417,7 +1461,7 @@ Proof.
 Qed.
 
 Lemma moof_box_item : forall m s e, moof (box_item m s e) = moof m.
-Proof. intros. unfold box_item. destruct (handle _ _). reflexivity. Qed.
+Proof. intros. unfold box_item, box_upd. destruct (handle _ _). reflexivity. Qed.
 Lemma push_item_moof : forall c log vis m e, server_ok c -> moof m = false -> moof (push_item c log vis m e) = false.
 Proof.
   intros c log vis m e Hok Hm. unfold push_item.
@@ -1466,6 +1510,8 @@ Proof.
     apply IHl. apply chan_diff_fuel_log; auto.
   - exact Hm.
   - destruct (_ && _); auto.
+  - unfold find_entry. destruct (find (fun e => eid e =? id) log) as [e|]; simpl; auto.
+    unfold affected. destruct (_ || _); auto. unfold box_upd. destruct (handle _ _). exact Hm.
 Qed.
 
 Theorem never_out_of_fuel : forall c log ops, server_ok c -> moof (mrun c log ops) = false.
@@ -1630,7 +1676,7 @@ Proof.
 Qed.
 
 (* ---------- C03 for the real, interleaved trace ---------- *)
-Definition ev_seq (ev : tev) : Z := match ev with Deliver s _ | Persist s _ | TooLong s _ _ => s end.
+Definition ev_seq (ev : tev) : Z := match ev with Deliver s _ | Persist s _ | TooLong s _ _ | Skip s _ => s end.
 Definition proj (s : Z) (tr : list tev) : list tev := filter (fun ev => ev_seq ev =? s) tr.
 Definition safe_seq (c : config) (log : list entry) (s : Z) (tr : list tev) : Prop :=
   forall e, In e log -> eseq e = s -> base c s < epos e <= persisted c s tr -> accounted s e tr.
@@ -1638,7 +1684,7 @@ Definition safe_seq (c : config) (log : list entry) (s : Z) (tr : list tev) : Pr
 Lemma persisted_proj : forall c s tr, persisted c s (proj s tr) = persisted c s tr.
 Proof.
   intros c s tr. unfold persisted. generalize (base c s). induction tr as [|ev t IH]; intros d; simpl; auto.
-  destruct ev as [s' id|s' v|s' f t0]; simpl; destruct (Z.eqb_spec s' s); simpl; try apply IH.
+  destruct ev as [s' id|s' v|s' f t0|s' id]; simpl; destruct (Z.eqb_spec s' s); simpl; try apply IH.
   subst. rewrite Z.eqb_refl. apply IH.
 Qed.
 Lemma in_proj : forall s ev tr, ev_seq ev = s -> (In ev (proj s tr) <-> In ev tr).
@@ -1647,8 +1693,8 @@ Proof.
 Qed.
 Lemma accounted_proj : forall s e tr, accounted s e (proj s tr) <-> accounted s e tr.
 Proof.
-  intros s e tr. unfold accounted. rewrite in_proj by reflexivity.
-  split; (intros [H|(f & t & H & Hr)]; [left; auto|right; exists f, t; split; auto]);
+  intros s e tr. unfold accounted. rewrite !in_proj by reflexivity.
+  split; (intros [H|[H|(f & t & H & Hr)]]; [left; auto|right; left; auto|right; right; exists f, t; split; auto]);
     [rewrite in_proj in H by reflexivity|rewrite in_proj by reflexivity]; auto.
 Qed.
 Lemma safe_at_proj : forall c log tr, safe_at c log tr <-> (forall s, 0 <= s -> safe_seq c log s (proj s tr)).
